@@ -7,3 +7,4 @@ def register(prop, TB):
         "protobuf error messages are not compared; the class `depth` is recognised by prost's fixed text \"recursion limit reached\"",
     ]
     prop("C05", lean_props=["C05", "PbTables"], trusted_base=tb)
+    prop("C10", lean_props=["C10", "PbTables"], trusted_base=tb)
